@@ -234,6 +234,90 @@ func runIndentPair(c *Ctx, r *Reporter) {
 			return false
 		}
 		reentrant := reach(sf)
+		// may fn (or anything it calls inside the package) write the field? calls of function values count as writers
+		writesMemo := map[string]map[*ssa.Function]bool{}
+		var writes func(f *ssa.Function, name string, visiting map[*ssa.Function]bool) bool
+		writes = func(f *ssa.Function, name string, visiting map[*ssa.Function]bool) bool {
+			if f == nil || f.Pkg != sf.Pkg || visiting[f] {
+				return false
+			}
+			if v, ok := writesMemo[name][f]; ok {
+				return v
+			}
+			visiting[f] = true
+			res := false
+			for _, b := range f.Blocks {
+				for _, ins := range b.Instrs {
+					switch ins := ins.(type) {
+					case *ssa.Store:
+						if fa, ok := ins.Addr.(*ssa.FieldAddr); ok {
+							if named, n := fieldAddrInfo(fa); named != nil && named.Obj().Name() == "formatting" && n == name {
+								res = true
+							}
+						}
+					case *ssa.Call:
+						if ins.Call.IsInvoke() {
+							continue
+						}
+						if callee := ins.Call.StaticCallee(); callee != nil {
+							if writes(callee, name, visiting) {
+								res = true
+							}
+						} else if _, builtin := ins.Call.Value.(*ssa.Builtin); !builtin {
+							res = true
+						}
+					}
+				}
+			}
+			delete(visiting, f)
+			if writesMemo[name] == nil {
+				writesMemo[name] = map[*ssa.Function]bool{}
+			}
+			if res { // a false result may be an artefact of a cycle cut short: not remembered
+				writesMemo[name][f] = res
+			}
+			return res
+		}
+		quietAfter := func(st *ssa.Store, name string) bool {
+			callWrites := func(ins ssa.Instruction) bool {
+				call, ok := ins.(*ssa.Call)
+				if !ok || call.Call.IsInvoke() {
+					return false
+				}
+				if callee := call.Call.StaticCallee(); callee != nil {
+					return callee == sf || writes(callee, name, map[*ssa.Function]bool{})
+				}
+				_, builtin := call.Call.Value.(*ssa.Builtin)
+				return !builtin
+			}
+			after := false
+			for _, ins := range st.Block().Instrs {
+				if ins == ssa.Instruction(st) {
+					after = true
+					continue
+				}
+				if after && callWrites(ins) {
+					return false
+				}
+			}
+			seenB := map[*ssa.BasicBlock]bool{}
+			stack := append([]*ssa.BasicBlock{}, st.Block().Succs...)
+			for len(stack) > 0 {
+				b := stack[len(stack)-1]
+				stack = stack[:len(stack)-1]
+				if seenB[b] {
+					continue
+				}
+				seenB[b] = true
+				for _, ins := range b.Instrs {
+					if callWrites(ins) {
+						return false
+					}
+				}
+				stack = append(stack, b.Succs...)
+			}
+			return true
+		}
 		// the function that formats the root node is re-entrant only on paper (the dispatcher has a case for *Program): a
 		// Program never occurs inside a Program
 		rootOnly := false
@@ -272,6 +356,15 @@ func runIndentPair(c *Ctx, r *Reporter) {
 						}
 					}
 				}
+				// a constant written on the way out settles the state as well: what the enclosing list continues with does
+				// not depend on the nested contents
+				if _, isConst := st.Val.(*ssa.Const); isConst {
+					isRestore = true
+				}
+				// … provided nothing that may write the field is called afterwards
+				if isRestore && !quietAfter(st, name) {
+					isRestore = false
+				}
 				if isRestore {
 					restores = append(restores, st)
 				} else {
@@ -298,7 +391,7 @@ func runIndentPair(c *Ctx, r *Reporter) {
 				r.Undecided("%s writes formatter state %s and defers calls: the restore may be deferred, which this clause does not follow", fd.QName(), name)
 				continue
 			}
-			r.Check(okR, construct, p.Rel(instrPos(byField[name][0])), "the value of "+name+" found on entry is put back on every path to return",
+			r.Check(okR, construct, p.Rel(instrPos(byField[name][0])), "the value of "+name+" found on entry (or a constant) is written on every path to return, with no writer of the field called afterwards",
 				fmt.Sprintf("%s can re-enter itself through the formatter and writes the formatter state %s without putting back the value it found on every path to return: the state of the nested list is what the enclosing list continues with (blank-line and layout decisions after the nested block depend on the block's contents; formatting is no longer idempotent)", fd.Name(), name))
 		}
 	}
